@@ -110,6 +110,21 @@ def _parsed_hill_case(text):
     return h
 
 
+def _copied_case(E):
+    """a formula that went through copy / deepcopy / pickle has equal atom counts, hence the same Hill form; adding the
+    copy to the original merges equal atoms"""
+    import copy
+    import pickle
+    from periodictable import formulas
+    for text in ('CH4', 'Na{+}Cl{-}', 'Fe[56]{2+}O{2-}', 'C[13]D4', 'HDO', 'Fe{3+}2O{2-}3'):
+        f = formulas.formula(text)
+        for how, g in (('copy', copy.copy(f)), ('deepcopy', copy.deepcopy(f)), ('pickle', pickle.loads(pickle.dumps(f)))):
+            E.fact('hill_of_%s[%s]' % (how, text), g.hill == f.hill and g.atoms == f.atoms, note='%r vs %r' % (g.hill.structure, f.hill.structure))
+            both = (f + g).hill
+            E.fact('hill_of_sum_with_%s[%s]' % (how, text), len(both.structure) == len(f.hill.structure) and both == (f + f).hill,
+                   note=repr(both.structure)[:120])
+
+
 def _parsed_private_case(E):
     """Hill-ordered strings parsed on a private table equal their own Hill form, made of that table's atoms"""
     from periodictable import formulas
@@ -199,6 +214,7 @@ def cases(tier):
     out.append(Case('canonical[O,H,C|private table]', _canonical_case(('O', 'H', 'C'), True), max_paths=64, timeout_ms=20000))
     out.append(Case('canonical[Fe56_3,Fe56_2,Fe2|private table]', _canonical_case(('Fe56_3', 'Fe56_2', 'Fe2'), True), max_paths=64, timeout_ms=20000))
     out.append(Case('parsed_hill_private_table', _parsed_private_case, max_paths=4))
+    out.append(Case('hill_after_copy', _copied_case, max_paths=4))
     texts = ['Be[9]Be[10]2O', 'C[9]C[12]H4', 'CH4', 'C2H6O', 'CCaO3', 'H2O', 'C6H12O6', 'CHCl3', 'Fe2O3', 'C[13]H4', 'CD4', 'HNaO', 'ClNa', 'HBr']
     for t in texts:
         out.append(Case('parsed_hill[%s]' % t, _parsed_hill_case(t), max_paths=4))
